@@ -26,7 +26,7 @@ class G:
             return ("var", r.choice(self.names))
         if allow_call and self.funcs and r.random() < 0.2:
             f = r.choice(self.funcs); self.ncalls += 1
-            nargs = r.randint(max(0, len(f["params"]) - f["ndef"]), len(f["params"]))
+            nargs = r.randint(0 if r.random() < 0.3 else max(0, len(f["params"]) - f["ndef"]), len(f["params"]))
             return ("call", f["name"], [self.expr(d - 1, False) for _ in range(nargs)])
         op = r.choice([3, 3, 4, 0, 1, 2])
         return ("bin", op, self.expr(d - 1, allow_call), self.expr(d - 1, allow_call))
@@ -65,7 +65,7 @@ class G:
         if x < 0.45 and self.in_func: return ("ret", self.expr(1, False))
         if x < 0.50 and self.funcs:
             f = r.choice(self.funcs); self.ncalls += 1
-            nargs = r.randint(max(0, len(f["params"]) - f["ndef"]), len(f["params"]))
+            nargs = r.randint(0 if r.random() < 0.3 else max(0, len(f["params"]) - f["ndef"]), len(f["params"]))
             return ("call", f["name"], [self.expr(1, False) for _ in range(nargs)])
         if x < 0.62: return ("print", self.expr(2))
         if x < 0.70: return ("note", r.randint(36, 96))
@@ -80,7 +80,8 @@ class G:
         pool = list(VARS); r.shuffle(pool)
         for i in range(np):
             # parameters often carry the name of a caller variable (shadowing; arguments mentioning such a name read the caller's value)
-            params.append((pool[i] if r.random() < 0.5 else ["PA", "QB", "RC"][i], r.randint(0, 9) if i >= np - ndef else None))
+            # declared defaults may stand anywhere in the list (a parameter without one takes 0 when its argument is omitted)
+            params.append((pool[i] if r.random() < 0.5 else ["PA", "QB", "RC"][i], r.randint(0, 9) if (i >= np - ndef or r.random() < 0.25) else None))
         self.in_func = True; self.names = list(VARS) + [p for p, _ in params if p not in VARS] * 2
         body = self.block(2, r.randrange(1, 4))
         # every function ends by yielding a value (a call of a function that yields none has no specified value inside an expression)
@@ -154,7 +155,7 @@ def gen_case(rng):
         g.funcs.append(f)      # later functions may call earlier ones (and themselves is avoided)
     prog = flat([("decl", v, ("lit", rng.randint(0, 5))) for v in VARS] + g.block(rng.choice([1, 2, 3, 4]), rng.randrange(1, 6)))
     fsrc = " ".join("FUNCTION %s(%s){ %s }" % (f["name"], ", ".join(p if d is None else "%s=%d" % (p, d) for p, d in f["params"]), ps(flat(f["body"]))) for f in g.funcs)
-    fsexp = "(" + " ".join("(fn %s (%s) %s)" % (f["name"], " ".join("(%s %s)" % (p, "_" if d is None else d) for p, d in f["params"]), ss(flat(f["body"]))) for f in g.funcs) + ")"
+    fsexp = "(" + " ".join("(fn %s (%s) %s)" % (f["name"], " ".join("(%s %s)" % (p, 0 if d is None else d) for p, d in f["params"]), ss(flat(f["body"]))) for f in g.funcs) + ")"
     src = (fsrc + " " if fsrc else "") + ps(prog)
     return src, "(%s %s)" % (fsexp, ss(prog)), g.nloops + g.ncalls
 
@@ -172,6 +173,11 @@ FIXED = [
     # a call made as a statement inside a function that is itself being evaluated inside an expression; then a call with omitted arguments
     ("INT IA=3; FUNCTION FA(JB=7){ PRINT(JB); RETURN((JB * IA)); } FUNCTION FB(PA){ FA(); RETURN(1); } INT ND=(FB(5) * FB(5)); PRINT(ND)",
      "(((fn FA ((JB 7)) ((print JB) (ret (b 0 JB IA)))) (fn FB ((PA _)) ((call FA ()) (ret 1)))) ((decl IA 3) (decl ND (b 0 (call FB (5)) (call FB (5)))) (print ND)))"),
+    # a parameter without a declared default after one with a default: omitted, it is 0 (not the earlier parameter's default)
+    ("FUNCTION F(PA=5, QB){ PRINT(PA) PRINT(QB) RETURN(PA+QB) } F() F(1) PRINT(F(1,2)) PRINT(F())",
+     "(((fn F ((PA 5) (QB 0)) ((print PA) (print QB) (ret (b 3 PA QB))))) ((call F ()) (call F (1)) (print (call F (1 2))) (print (call F ()))))"),
+    ("FUNCTION G(PA=3, QB, RC=7, KA){ RETURN(((PA*1000)+(QB*100))+((RC*10)+KA)) } PRINT(G()) PRINT(G(1)) PRINT(G(1,2)) PRINT(G(1,2,3)) PRINT(G(1,2,3,4))",
+     "(((fn G ((PA 3) (QB 0) (RC 7) (KA 0)) ((ret (b 3 (b 3 (b 0 PA 1000) (b 0 QB 100)) (b 3 (b 0 RC 10) KA)))))) ((print (call G ())) (print (call G (1))) (print (call G (1 2))) (print (call G (1 2 3))) (print (call G (1 2 3 4)))))"),
     ("INT X=5 FUNCTION F(A=2){ INT X=A+1 X=X+1 Result=X } PRINT(F()) PRINT(X)", "(((fn F ((A 2)) ((decl X (b 3 A 1)) (assign X (b 3 X 1)) (assign Result X)))) ((decl X 5) (print (call F ())) (print X)))"),
 ]
 
